@@ -66,6 +66,18 @@ fn main() {
             match r { Err(e) => Some(format!("strptime(%A, \"Tuesday, ...\") = Err({e})")), Ok(_) => None }
         });
     }
+    if on("F27") {
+        run("F27", || {
+            use jiff::{RoundMode, SpanRound, ToSpan};
+            let r = date(2025, 1, 1);
+            let cfg = |largest| SpanRound::new().smallest(Unit::Month).increment(5).mode(RoundMode::Expand).largest(largest).relative(r);
+            let y = 11.months().round(cfg(Unit::Year)).ok()?;
+            let m = 11.months().round(cfg(Unit::Month)).ok()?;
+            // same rounding, different largest unit: r + result must be the same instant (15 months later)
+            let (ey, em) = (r.checked_add(y).ok()?, r.checked_add(m).ok()?);
+            if ey != em { Some(format!("11mo rounded to 5-month increments (Expand): largest=month gives {m:?} (-> {em}), largest=year gives {y:?} (-> {ey})")) } else { None }
+        });
+    }
     if on("F8") {
         run("F8", || {
             let tz = TimeZone::posix("EST5EDT,0/0,J365/25").ok()?;
